@@ -1,3 +1,4 @@
+import ZorgVerif.Lemmas.Identity
 import ZorgVerif.Lemmas.NoteText
 /-!
 # C05 — After `db create` index and files agree; files change only to gain ZIDs
@@ -49,6 +50,13 @@ theorem C05_index_body_agrees (zid : Str) (body : List Str) (hb : body ≠ []) (
     rw [splitOn_joinSp (w :: r) (by simp) hsp]
     simp only [dropLeading]
     split <;> rfl
+
+/-- **The written ZID is read back**: a line whose first word after the prefix is a ZID (what `C05_zid_after_prefix` writes,
+one `ZID` token by `C07_allocated_lexes`) compiles to a note with that ZID and the ZID's date, whatever the rest of the line is —
+so the second compile allocates nothing and file and index keep agreeing on identity. -/
+theorem C05_written_zid_is_read (z : Str) (dt : Date) (hz : Zo.isZid z = true) (hd : Date.parseShort (z.take 6) = some dt)
+    (rest : List Zo.Ev) : Zo.identity (.word :: .id z :: rest) = .ok (none, some z, some dt) :=
+  Zo.identity_zid_first z dt hz hd rest
 
 /-- splitting a line at spaces and joining it again is the identity (the rewriting loses no character) -/
 theorem C05_split_join (s : Str) : joinSp (splitOn ' ' s) = s := joinSp_splitOn s
